@@ -246,6 +246,8 @@ func init() {
 				RewardScenario(RewardOpts{ID: "C08-below-baseline", Cfg: world.Config{BlockReward: 1_000_000, Baseline: 1_000_000_000_000_000, HalvingPeriod: 11, AdjustmentPeriod: 11}, Depth: d}),
 				// starts four coins short of the first halving, below the baseline, with the pledge-based reward (2-6 coins)
 				// between the halved and the full block reward: the schedule bound changes inside the explored depth
+				// starts four coins short of the 400e12 cap: minting must stop at the cap, the counter must stay exact
+				RewardScenario(RewardOpts{ID: "C08-near-cap", Cfg: world.Config{BlockReward: 3, Baseline: 1, HalvingPeriod: 11, AdjustmentPeriod: 11, GenesisReward: 400_000_000_000_000 - 4}, Depth: d}),
 				RewardScenario(RewardOpts{ID: "C08-across-halving", Cfg: world.Config{BlockReward: 3, Baseline: 1_000_000_000_000_000, APY: "1", HalvingPeriod: 11, AdjustmentPeriod: 11, GenesisReward: 200_000_000_000_000 - 4}, Depth: d}),
 			}
 		}})
